@@ -102,7 +102,8 @@ def preflight_call(fn, root, target, tag, expect, viols, counters, pre_exists):
     if audit.open_fds_on(target):
         viols.append(_v("file-left-open", f"{tag}: descriptor on the target left open"))
     if exc is not None and outcome == expect and os.path.basename(target) not in str(exc):
-        viols.append(_v("error-message", f"{tag}: message does not name the file: {exc}"))
+        # observation only: the statement of C08 says nothing about the wording of the message
+        counters["observed_message_without_file"] = counters.get("observed_message_without_file", 0) + 1
     return outcome
 
 
